@@ -71,6 +71,16 @@ CHECKS = {
    technique="TLA+ spec ServerAuth.tla (endpoint x credential form x access configuration x trust history) model-checked with TLC; every reachable combination sent as a hand-built HTTP request to a live sos_server on loopback with before/after comparison of the account's server state",
    text="ServerAuth.tla decides for every access configuration (none, allow, allow-without-A, deny, deny-other, allow+deny), trust history (second device trusted, then revoked through the device event log), API endpoint (16 route/method pairs incl. files and the websocket upgrade) and credential form (none, malformed, unknown key, another account's device key, trusted key over other bytes / another path, legacy token formats, missing account header, trusted key, second device) whether a request may be accepted; TLC checks AcceptOnlyIfTrusted, DenyListWins and RefusedUnchanged on all reachable combinations. Each is replayed against a real server process-internal instance over HTTP: refused combinations must answer 400/401/403 and leave sync status, device set and every file under the server data directory unchanged; accepted combinations must not be rejected by authorisation; the server must still answer at the end.",
    note="Accepted-expected cases are not sent for DELETE /sync/account and the websocket upgrade; the route table is a constant of MC_ServerAuth.tla (a newly added unauthenticated route would not be noticed); Ed25519 unforgeability."),
+ "C18": dict(
+   level="model_checking", design="DESIGN.md 6.4, 7 (C18)",
+   technique="TLA+ spec Account.tla behaviours (TLC transition tour) replayed on LocalAccount; at the end of behaviours export -> import into empty storage -> compare; single-entry mutations of the archive enumerated and imported into a jail directory",
+   text="Accounts produced by the behaviours TLC enumerates from Account.tla (several folders, flags, descriptions, moves, archive folder, deletes) on the file-system backend (archive v2) and the sqlite backend (archive v3) are exported and imported into empty storage; the restored account must sign in with the same password and serve the same folders, names, flags, descriptions and decrypted secrets. Every single-entry mutation class of the valid archive is then imported into a jail: one content byte of every entry, one stored checksum of the manifest, extra entries named ../x, ../../x, a/../../x, ..\\x, an absolute path and a drive-prefixed path, and a duplicate entry with other content; each must be rejected without leaving an account (or restore an identical account) and must not create any file outside the import target.",
+   note="Attachments (external files) are not yet part of the generated histories; archive classes are enumerated by the harness on final states, ExportImport is not an explicit action of Account.tla."),
+ "C19": dict(
+   level="translation_validation", design="DESIGN.md 6.4, 7 (C19)",
+   technique="TLA+ spec Account.tla behaviours (TLC transition tour) executed on the file-system and sqlite backends in lock-step (same observable account), then the file-system instance upgraded (dry run, real) and compared with its source",
+   text="Per generated history (instance of the translation): the history is executed on both backends in lock-step and every step must give the same projected state (BackendsAgree); at the end the file-system account directory is copied, upgrade_accounts is run as a dry run (every file of the source must stay byte-identical) and for real, and the resulting sqlite account must sign in with the same password and report the same sync status for the identity, account, device, file and every folder log (same roots and lengths), the same trusted devices and the same decrypted folders (name, flags, description, secrets).",
+   note="One account per data directory; client layout only; preferences, server list and attachments are not yet generated; the post-upgrade sync against a server holding the pre-upgrade state is implied by equal sync status, not executed."),
 }
 
 NOT_YET = {
